@@ -21,14 +21,17 @@ Bump(i) == TLCSet(i, TLCGet(i) + 1)
 ASSUME \A i \in 1..16 : TLCSet(i, 0)
 
 Delta(ev) == ev.l1 - ev.l0
-Fired(ev) == Has(ev, "fired") /\ ev.fired = 1
+Fired(ev) == (Has(ev, "fired") /\ ev.fired = 1) \/ (Has(ev, "afail") /\ ev.afail = 1)
+AllocFailed(ev) == Has(ev, "afail") /\ ev.afail = 1
 Cls(cls, rc, what) == IF Matches(cls, rc) THEN {} ELSE {what}
 \* common ledger rules: a failing call keeps nothing (R1); the library never frees a caller buffer (R6)
 Common(ev, prop) ==
      (IF ev.rc < 0 /\ Delta(ev) # 0 THEN {prop \o " failed call changed the live block count (kept or released memory)"} ELSE {})
 \cup (IF ev.ff # 0 THEN {"C16 library freed a pointer it does not own"} ELSE {})
-\cup (IF Fired(ev) /\ ev.rc >= 0 THEN {"C17 backend operation failed but the public call reported success"} ELSE {})
-\cup (IF Fired(ev) /\ Delta(ev) # 0 THEN {"C17 failed backend operation left memory behind"} ELSE {})
+\cup (IF Fired(ev) /\ ~AllocFailed(ev) /\ ev.rc >= 0 THEN {"C17 backend operation failed but the public call reported success"} ELSE {})
+\cup (IF Fired(ev) /\ ~AllocFailed(ev) /\ Delta(ev) # 0 THEN {"C17 failed backend operation left memory behind"} ELSE {})
+\cup (IF AllocFailed(ev) /\ ev.rc >= 0 THEN {"C16 an allocation failed but the call reported success"} ELSE {})
+\cup (IF AllocFailed(ev) /\ Delta(ev) # 0 THEN {"C16 call that failed for lack of memory kept or over-released memory"} ELSE {})
 NoDelta(ev) == IF Delta(ev) # 0 THEN {"C16 call that hands nothing to the caller changed the live block count"} ELSE {}
 Quiescent(s) == Live(s) = {} /\ s.owedE = {} /\ s.owedD = {}
 \* R5: at a quiescent point the count is back at the baseline
@@ -64,11 +67,13 @@ OnDestroy(ev) ==
        s |-> s2, e |-> encD, d |-> decD]
 OnEncode(ev) ==
    LET cls == ExpectEncode(st, ev.x, ev.nullmask, Fired(ev))
-       s2 == EncodeEffect(st, ev.x, ev.T, ev.rc)
+       nullout == Has(ev, "nullout") /\ ev.nullout = 1
+       s2 == EncodeEffect(st, ev.x, ev.T, IF nullout THEN -1 ELSE ev.rc)
    IN [v |-> Cls(cls, ev.rc, "C13 encode: argument class refused or accepted wrongly")
-             \cup (IF ev.rc = 0 /\ Delta(ev) <= 0 THEN {"C16 encode handed out nothing"} ELSE {})
+             \cup (IF nullout THEN {"C16 encode reported success without handing out its output arrays"} ELSE {})
+             \cup (IF ev.rc = 0 /\ ~nullout /\ Delta(ev) <= 0 THEN {"C16 encode handed out nothing"} ELSE {})
              \cup Common(ev, "C13"),
-       s |-> s2, e |-> IF ev.rc = 0 THEN [t \in DOMAIN encD \cup {ev.T} |-> IF t = ev.T THEN Delta(ev) ELSE encD[t]] ELSE encD, d |-> decD]
+       s |-> s2, e |-> IF ev.rc = 0 /\ ~nullout THEN [t \in DOMAIN encD \cup {ev.T} |-> IF t = ev.T THEN Delta(ev) ELSE encD[t]] ELSE encD, d |-> decD]
 OnEncClean(ev) ==
    LET cls == ExpectEncClean(st, ev.x)
        released == ev.had = 1 /\ ev.nullmask = 0
